@@ -20,7 +20,7 @@ func filterObs(obs []core.Ob, keep func(o core.Ob) bool) []core.Ob {
 
 func init() {
 	Props["C01"] = PropDef{
-		Explanation: "R-NOBUF call-graph reachability; T-ENDIAN / T-DISPATCH (+ clause consistency) / T-KIND / T-NATURAL / T-TAGWIDTH table extraction from syntax and SSA; T-BITFIELD bit-range disjointness; R-RAWREAD one-byte adapter; R-NOALIAS append ownership; T-KIND emptiness coverage. Decided: No read-ahead primitive is reachable from the decode entry points and the byte adapter delivers a byte only when one was read; fixed-width codecs are big-endian and move the width of their tag (clauses and width tables); tag dispatches are complete, self-consistent and reject unknown ids and bare TagEnd; the kind->tag mapping is the documented table, accepted back, and omitempty decides every encodable kind; the field-index cache does not alias. Decoded values for arbitrary documents and struct-tag option parsing are not decided.",
+		Explanation: "R-NOBUF call-graph reachability; T-ENDIAN / T-DISPATCH (+ clause consistency) / T-KIND / T-NATURAL / T-TAGWIDTH table extraction from syntax and SSA; T-BITFIELD bit-range disjointness; R-RAWREAD one-byte adapter; R-NOALIAS append ownership; T-KIND emptiness coverage; R-ORDER exact-before-fold; R-SIBLING list element tag; R-LENPREFIX payload on every path; R-REFLKIND zero Value. Decided: No read-ahead primitive is reachable from the decode entry points and the byte adapter delivers a byte only when one was read; fixed-width codecs are big-endian and move the width of their tag (clauses and width tables); tag dispatches are complete, self-consistent and reject unknown ids and bare TagEnd; the kind->tag mapping is the documented table, accepted back, and omitempty decides every encodable kind; the field-index cache does not alias and is keyed by exact names, which are asked before any case-insensitive match; every list element is written with the tag of the list header (or refused), an array payload is built on every path, no Type() of a possibly zero Value. Decoded values for arbitrary documents and struct-tag option parsing are not decided.",
 		Run: func(c *Ctx) []core.Ob {
 			obs := c.NoReadAhead()
 			obs = append(obs, c.Endian()...)
@@ -41,7 +41,7 @@ func init() {
 		},
 	}
 	Props["C02"] = PropDef{
-		Explanation: "R-REFLKIND kind-set refinement; T-KIND / T-NATURAL tables; R-NOMUT; R-MARSHALER; R-NOALIAS (append ownership, fresh element per iteration); T-TAGWIDTH; R-TRUNC copy-into-fixed. Decided: Encoding cannot panic in a reflect accessor for any kind the table routes to it, writes nothing through its input, every kind it accepts has an accepting decoder case, custom marshalers keep the stream aligned, decoded map/list elements and cached index paths do not share memory, headers are not cut to a fixed buffer. Value equality after the round trip is not decided.",
+		Explanation: "R-REFLKIND kind-set refinement; T-KIND / T-NATURAL tables; R-NOMUT; R-MARSHALER; R-NOALIAS (append ownership, fresh element per iteration); T-TAGWIDTH; R-TRUNC copy-into-fixed; R-ORDER exact-before-fold; R-SIBLING list element tag; R-LENPREFIX payload on every path; R-REFLKIND zero Value; R-ESCAPE pass order. Decided: Encoding cannot panic in a reflect accessor for any kind the table routes to it (nor in Type() of a nil element), writes nothing through its input, every kind it accepts has an accepting decoder case, custom marshalers keep the stream aligned, decoded map/list elements and cached index paths do not share memory, headers are not cut to a fixed buffer, list elements carry the header's tag, exact field names win over case-insensitive matches. Value equality after the round trip is not decided.",
 		Run: func(c *Ctx) []core.Ob {
 			obs := c.ReflKind()
 			obs = append(obs, c.KindTables()...)
@@ -61,7 +61,7 @@ func init() {
 		},
 	}
 	Props["C04"] = PropDef{
-		Explanation: "T-SNBTSUF writer tables vs parser classifier; T-DISPATCH; T-SCANSTATE detour states; R-TRUNC rune-to-byte; R-GUARD string indexes; R-PANIC; R-TLG loop bounds. Decided: What the text writer emits for each tag is classified back to the same tag; array-prefix tables agree; escape states of the scanner return to the string state they left; quoting decisions look at bytes, not truncated runes; no unguarded index into a possibly empty string; no untriaged explicit panic reachable from text input. The scanner's accepted language, float formatting and escaping order are not decided.",
+		Explanation: "T-SNBTSUF writer tables vs parser classifier; T-DISPATCH; T-SCANSTATE detour states; R-TRUNC rune-to-byte; R-GUARD string indexes; R-PANIC; R-TLG loop bounds; T-SNBT float format ('f', -1), print range against the parser's width (R-TLG interval), bare-string decisions, text through the literal parser; T-SCANSTATE delegated skip-space; R-ORDER text entry checks end of input; R-ESCAPE pass order. Decided: What the text writer emits for each tag is classified back to the same tag: suffix tables, array prefixes, integers inside the signed range their parser accepts, floats in the shortest exact decimal without exponent, strings left bare only where emptiness and number-likeness were decided, escapes written in one pass; escape states of the scanner return to the string state they left and a delegated end-of-value state makes itself current across blanks; input text becomes a string only where the literal parser has classified it; the text entry point reports success only after the end of the input was checked; quoting decisions look at bytes, not truncated runes; no unguarded index into a possibly empty string; no untriaged explicit panic reachable from text input. The scanner's accepted language as a whole is not decided.",
 		Run: func(c *Ctx) []core.Ob {
 			obs := c.SNBTSuffix()
 			obs = append(obs, c.SNBTLiteralWidths()...)
@@ -70,6 +70,9 @@ func init() {
 			obs = append(obs, c.SNBTFloatFormat("nbt")...)
 			obs = append(obs, c.SNBTTextThroughParser("nbt")...)
 			obs = append(obs, c.SNBTBareStrings("nbt")...)
+			obs = append(obs, c.SNBTPrintRange("nbt")...)
+			obs = append(obs, c.ScannerDelegatedSkip("nbt")...)
+			obs = append(obs, c.TextEntryEOF("nbt.(StringifiedMessage).MarshalNBT")...)
 			obs = append(obs, c.EscapePassOrder("nbt")...)
 			obs = append(obs, c.StringIndexGuards(pkgPred("nbt"))...)
 			textDispatch := ""
@@ -103,7 +106,7 @@ func init() {
 		},
 	}
 	Props["C10"] = PropDef{
-		Explanation: "R-ORIGIN value-origin of the cipher streams; R-NOALIAS constructor parameters; T-CONNINIT; R-GUARD block-slices on an inlined view. Decided: The connection decrypts what it reads and encrypts what it writes with streams built over the same block and IV, directly on the socket; the CFB8 constructors keep no caller memory; every slice by the block size in XORKeyStream is behind a length gate on that slice. Whether XORKeyStream equals AES-CFB8 is not decided.",
+		Explanation: "R-ORIGIN value-origin of the cipher streams; R-NOALIAS constructor parameters; T-CONNINIT; R-GUARD block-slices on an inlined view; R-RING position advanced only behind the wrap test, scratch use of the register buffer only after the last use of the window. Decided: The connection decrypts what it reads and encrypts what it writes with streams built over the same block and IV, directly on the socket; the CFB8 constructors keep no caller memory; every slice by the block size in XORKeyStream is behind a length gate on that slice; the ring position is advanced only where it was found different from twice the block size, and the register buffer is overwritten as scratch space only where no use of the register window can follow. Whether XORKeyStream equals AES-CFB8 is not decided.",
 		Run: func(c *Ctx) []core.Ob {
 			obs := c.CipherWiring()
 			obs = append(obs, c.NoRetainedParamSlices("net/CFB8")...)
@@ -114,7 +117,7 @@ func init() {
 		},
 	}
 	Props["C11"] = PropDef{
-		Explanation: "R-GUARD range facts proven by the R-TLG interpreter at every access of the packed data; R-ORDER for Fix / NewBitStorage / ReadFrom exact length; T-BSINV inverse of the size function; R-WIRESYM/R-TLG for the wire form. Decided: Rejected calls cannot have modified storage, zero-width storages return before dividing, wrong raw lengths are refused, ReadFrom gives the array exactly the announced length, the width recovered from a raw length packs as many values per long as the width it was sized for (one known finding). The index arithmetic itself is not decided.",
+		Explanation: "R-GUARD range facts proven by the R-TLG interpreter at every access of the packed data; R-ORDER for Fix / NewBitStorage / ReadFrom exact length; T-BSINV inverse of the size function; R-WIRESYM/R-TLG for the wire form; T-BSFIX every width-derived field refreshed by Fix; R-ACCEPT announced length admits a 4096x32-bit array; T-BSINV direct width (registry size read from the tree) and width-from-saved-longs. Decided: Rejected calls cannot have modified storage, zero-width storages return before dividing, wrong raw lengths are refused, ReadFrom gives the array exactly the announced length and refuses no length a 4096-entry storage can have, Fix re-assigns every scalar field the constructor derives from the width, the width recovered from a raw length packs as many values per long as the width it was sized for and is exact for the direct width (two known findings). The index arithmetic itself is not decided.",
 		Run: func(c *Ctx) []core.Ob {
 			obs := c.BitStorageGuards()
 			obs = append(obs, c.BitStorageFixSibling()...)
